@@ -11,20 +11,28 @@
 void *
 nni_alloc(size_t sz)
 {
-	return (sz > 0 ? malloc(sz) : NULL);
+	void *p = (sz > 0 ? malloc(sz) : NULL);
+	if (p != NULL) {
+		g_alloc_ok++;
+	}
+	return (p);
 }
 
 void *
 nni_zalloc(size_t sz)
 {
-	return (sz > 0 ? calloc(1, sz) : NULL);
+	void *p = (sz > 0 ? calloc(1, sz) : NULL);
+	if (p != NULL) {
+		g_alloc_ok++;
+	}
+	return (p);
 }
 
 void
 nni_free(void *ptr, size_t size)
 {
-	g_free_calls++;
 	if (ptr != NULL) {
+		g_free_calls++; /* counts releases of real blocks only */
 		__CPROVER_assert(__CPROVER_OBJECT_SIZE(ptr) == size,
 		    "sized free: nni_free size equals allocation size");
 		__CPROVER_assert(__CPROVER_POINTER_OFFSET(ptr) == 0,
